@@ -397,6 +397,7 @@ def make(prop):
     m.gen = gen_c07 if prop == "C07" else gen
     m.view = view
     m.nontrivial = nontrivial
+    m.features = features
     m.oracle = {"C01": oracle_c01, "C02": oracle_c02, "C07": oracle_c07}.get(prop, lambda case, out, raw: [("panic", "full pass panicked at %s: %s" % ((raw or {}).get("site"), (raw or {}).get("panic")))] if (out is None or "panic" in out) else [])
     m.WITNESSES = {}
     if prop == "C01":
@@ -546,3 +547,18 @@ def oracle_c02(case, out, raw):
                         ds.append(("c02-creation", "%s.%s: creation of %s recorded as %s %s" % (t["name"], tf["name"], e["type"], g["NodeName"], g["FunctionName"])))
                         break
     return dedup(ds)
+
+
+def features(case):
+    """event kinds of the rendered units (what the listeners are driven through), number of files / runs"""
+    out = set()
+    for u in case.get("units", []):
+        for e in u.get("events", []):
+            if isinstance(e, dict):
+                out.add("ev:" + str(e.get("e", "?")))
+            elif isinstance(e, list) and e:
+                out.add("ev:" + str(e[0]))
+    out.add("files:%d" % min(len(case.get("units", [])), 5))
+    if "runs" in case:
+        out.add("runs:%d" % len(case["runs"]))
+    return sorted(out)
